@@ -138,17 +138,25 @@ class TimeMixIn(object):
         :
             new instance of |ASN.1| value
         """
-        text = dt.strftime(cls._yearsDigits == 4 and '%Y%m%d%H%M%S' or '%y%m%d%H%M%S')
+        if cls._yearsDigits == 4:
+            # strftime('%Y') does not pad years below 1000
+            text = '%.4d' % dt.year + dt.strftime('%m%d%H%M%S')
+        else:
+            text = dt.strftime('%y%m%d%H%M%S')
+
         if cls._hasSubsecond:
             text += '.%d' % (dt.microsecond // 1000)
 
-        if dt.utcoffset():
-            seconds = dt.utcoffset().seconds
-            if seconds < 0:
+        offset = dt.utcoffset()
+
+        if offset:
+            # whole minutes east (+) or west (-) of UTC
+            minutes = (offset.days * 86400 + offset.seconds) // 60
+            if minutes < 0:
                 text += '-'
             else:
                 text += '+'
-            text += '%.2d%.2d' % (seconds // 3600, seconds % 3600)
+            text += '%.2d%.2d' % divmod(abs(minutes), 60)
         else:
             text += 'Z'
 
